@@ -34,6 +34,7 @@ Accepts(m, op, v) ==
   CASE op = "SetPol"  -> TRUE
     [] op = "SetShadow" -> TRUE
     [] op = "Plot"      -> TRUE
+    [] op \in {"ByConstruct", "BySetPol", "BySetShadow"} -> TRUE      \* steps of another live object (bystander)
     [] op = "SetSigma"  -> RSgn(v) >= 0
     [] op = "SetN"    -> RSgn(v) > 0
     [] op = "SetFc"   -> IF m = "hata" THEN LLe(R(150), v) /\ LLe(v, R(1500)) ELSE RSgn(v) > 0
@@ -42,7 +43,7 @@ Accepts(m, op, v) ==
     [] op = "SetArea" -> v \in AreaTypes
 
 \* setters each model offers (public attributes / properties of the class)
-Common == {"SetPol", "SetShadow", "SetSigma", "Plot"}      \* "Plot": the plot helper, a query (no parameter changes)
+Common == {"SetPol", "SetShadow", "SetSigma", "Plot", "ByConstruct", "BySetPol", "BySetShadow"}      \* "Plot": the plot helper, a query (no parameter changes)
 Offers(m) ==
   CASE m = "freespace" -> Common \cup {"SetN", "SetFc"}
     [] m = "metis"     -> Common \cup {"SetFc"}
